@@ -144,5 +144,10 @@ class MDMFWrite(Spec):
         return [("canary", z3.BoolVal(len(self._calls) < 2))]
 
 
+def extra_checks(rep, tier):
+    from contracts import grid_mutable
+    grid_mutable.grid_check(rep, tier, "C12")
+
+
 def contracts(tier):
     return [SDMFWrite(), MDMFWrite(), C23.CheckTestV(), C24.SlotTestvReadvWritev(), C47.GotWriteAnswer(), C47.Failure_(), C47.Push()]
